@@ -268,7 +268,8 @@ Section Proofs.
     c_pkce cfg = true -> op_honest cfg o = true -> Inv j lg ->
     Inv (jar_after j o (respond H cfg j o)) (push_login (respond H cfg j o) lg).
   Proof.
-    intros Hp Hh HI. destruct o as [s0 v0|q ok ap|n c|n].
+    intros Hp Hh HI. destruct o as [s0 v0|s0|q ok ap|n c|n].
+    2:{ exact HI. }
     - cbn [respond]. unfold start_login, login_cookies. rewrite Hp.
       cbn [jar_after ev_cookies push_login jar_apply fold_left jar_apply1 fst snd state_cookie pkce_cookie].
       intros s v Hs Hv. rewrite !check_set in Hs, Hv.
@@ -318,7 +319,7 @@ Section Proofs.
     Forall is_redirect lg -> Forall (fun t => Forall is_redirect (t_logins t)) (trace H cfg j lg ops).
   Proof.
     induction ops as [|o ops IH]; intros j lg Hl; cbn [trace]; constructor; [exact Hl|].
-    apply IH. destruct o as [s v|q ok ap|n c|n]; cbn [respond push_login]; auto.
+    apply IH. destruct o as [s v|s|q ok ap|n c|n]; cbn [respond push_login]; auto.
     - unfold start_login. cbn [push_login]. constructor; [|exact Hl]. exists s, v. reflexivity.
     - destruct (callback_shape j q ok) as (h & r & cs & E & _). now rewrite E.
   Qed.
@@ -367,7 +368,7 @@ Section Proofs.
   Proof.
     induction ops as [|o ops IH]; intros j lg HI Hh; [reflexivity|].
     cbn [trace map snd spec_run]. apply andb_true_iff; split.
-    - destruct o as [s v|q ok ap|n c|n]; cbn [respond spec_step]; try reflexivity.
+    - destruct o as [s v|s|q ok ap|n c|n]; cbn [respond spec_step]; try reflexivity.
       + apply auth_ok_model.
       + pose proof (cb_ok_model hon j lg q ok HI) as Hc.
         destruct (callback cfg j q ok); try contradiction. exact Hc.
